@@ -5,16 +5,25 @@
      S:<g>:<k>:<hexname>:<f>[:<hexarg>]   declaration followed by a setter; <f> = s(hort_name) e(nv) m(etavar) d(efault)
      HD:<g>:<k>:<hexname>[:<f>[:<hexarg>]]  the same through the group& handed out earlier (held handle; * = default group)
      HS:<g>:<k>:<hexname>:<f>[:<hexarg>]    setter through the option& handed out earlier; NOH when no such handle exists
-     MC | MA | MS                 move the parser object (construct / assign / via a stack object); P  parse of []
+     <f> also: o(ptional, not for toggles) r(= allow_reverse, toggles only, S and HD forms only)
+     an upper-case <k> passes a description argument; <g> = @ is parser.group().<decl>; G:<hexgroup>:<hexdesc> passes a description
+     MC | MA | MS | MV | MW | MB  move the parser object (construct / assign / via a stack object / through a growing
+                                  std::vector / std::swap / assign over a populated parser); P  parse of []
    observation: one word per operation, then "; F=<parse>", the probes, the display order and the settings table. *)
-let kind_of = function "o" -> KOpt | "m" -> KMulti | "t" -> KToggle | _ -> failwith "kind"
-let gsel_of s = if s = "*" then GDirect else GNamed (str_of_hex s)
-let key_of s = if s = "*" then default_key else str_of_hex s
+(* an upper-case kind letter = the same call with a description argument; "@" = parser.group().option(..), the
+   default group requested explicitly: forms of the same operation *)
+let kind_of = function "o" | "O" -> KOpt | "m" | "M" -> KMulti | "t" | "T" -> KToggle | _ -> failwith "kind"
+let gsel_of s = if s = "*" || s = "@" then GDirect else GNamed (str_of_hex s)
+let key_of s = if s = "*" || s = "@" then default_key else str_of_hex s
 let setter_of f a = match f, a with
   | "s", [a] -> SShort (str_of_hex a) | "e", [a] -> SEnv (str_of_hex a) | "m", [a] -> SMetavar (str_of_hex a)
-  | "d", [] -> SDefault | _ -> failwith "setter"
+  | "d", [] -> SDefault | "o", [] -> SOptional | _ -> failwith "setter"
 let op_of w = match String.split_on_char ':' w with
-  | ["G"; g] -> OGroup (str_of_hex g)
+  | ["G"; g] | ["G"; g; _] -> OGroup (str_of_hex g)        (* with a description: the same group *)
+  (* toggle::allow_reverse() changes no declaration-time state: declaring and calling it = declaring *)
+  | ["S"; g; k; n; "r"] -> ODecl (gsel_of g, kind_of k, str_of_hex n)
+  | ["HD"; g; k; n; "r"] -> OHDecl (key_of g, kind_of k, str_of_hex n, None)
+  | ["S"; g; k; n; "o"] -> OSet (gsel_of g, kind_of k, str_of_hex n, SOptional)
   | ["D"; g; k; n] -> ODecl (gsel_of g, kind_of k, str_of_hex n)
   | ["S"; g; k; n; "s"; a] -> OSet (gsel_of g, kind_of k, str_of_hex n, SShort (str_of_hex a))
   | ["S"; g; k; n; "e"; a] -> OSet (gsel_of g, kind_of k, str_of_hex n, SEnv (str_of_hex a))
@@ -23,7 +32,7 @@ let op_of w = match String.split_on_char ':' w with
   | ["HD"; g; k; n] -> OHDecl (key_of g, kind_of k, str_of_hex n, None)
   | "HD" :: g :: k :: n :: f :: a -> OHDecl (key_of g, kind_of k, str_of_hex n, Some (setter_of f a))
   | "HS" :: g :: k :: n :: f :: a -> OHSet (((key_of g, kind_of k), str_of_hex n), setter_of f a)
-  | ["MC"] | ["MA"] | ["MS"] -> OMove
+  | ["MC"] | ["MA"] | ["MS"] | ["MV"] | ["MW"] | ["MB"] -> OMove
   | ["P"] -> OParse
   | _ -> failwith "op"
 let dedup l = List.rev (List.fold_left (fun acc x -> if List.mem x acc then acc else x :: acc) [] l)
@@ -68,8 +77,9 @@ let render (ws : string list) ((((outs, fin), probes), order), table) : string =
       Buffer.add_string b (match o with
         | None -> Printf.sprintf " %d=MISSING" (id_of i)
         | Some ob -> let ((_, k), _) = i in
-          Printf.sprintf " %d=%s/%s/%s/%s" (id_of i) (hex_of_str ob.o_short) (hex_of_str ob.o_env) (hex_of_str ob.o_metavar)
-            (match k with KToggle -> "-" | _ -> if ob.o_default then "1" else "0")) end) retids table;
+          Printf.sprintf " %d=%s/%s/%s/%s/%s" (id_of i) (hex_of_str ob.o_short) (hex_of_str ob.o_env) (hex_of_str ob.o_metavar)
+            (match k with KToggle -> "-" | _ -> if ob.o_default then "1" else "0")
+            (match k with KToggle -> "-" | _ -> if ob.o_optional then "1" else "0")) end) retids table;
   Buffer.contents b
 let args ws = (List.map op_of ws, List.map str_of_hex (names_of ws), List.map str_of_hex (letters_of ws))
 let model ws = let (ops, ns, ls) = args ws in render ws (model_observe ops ns ls)
